@@ -151,3 +151,44 @@ V('c02-io-executor-two-threads', ['C02', 'C06', 'C16'], 'manager.py',
             max_num_threads=1,""",
   """            max_size=self._config.max_io_queue_size,
             max_num_threads=2,""", ['C10.a'])
+
+# ---- counting / deferred open ---------------------------------------------------
+V('c04-invoker-decrement-by-zero', ['C04', 'C08'], 'utils.py', """            self._count -= 1
+            if self._is_finalized and self._count == 0:""", """            self._count -= 0
+            if self._is_finalized and self._count == 0:""", ['C04.h'])
+V('c04-invoker-zero-test-before-decrement', ['C04', 'C08'], 'utils.py', """            self._count -= 1
+            if self._is_finalized and self._count == 0:
+                self._callback()""", """            if self._is_finalized and self._count == 0:
+                self._callback()
+            self._count -= 1""", ['C04.h'])
+V('c04-invoker-increment-after-finalize-allowed', ['C04', 'C08'], 'utils.py', """            if self._is_finalized:
+                raise RuntimeError(
+                    'Counter has been finalized it can no longer be '
+                    'incremented.'
+                )
+            self._count += 1""", """            self._count += 1""", ['C04.h'])
+V('c01-deferred-open-seeks-only-for-zero', ['C01', 'C14'], 'utils.py', """            if self._start_byte != 0:
+                self._fileobj.seek(self._start_byte)""", """            if self._start_byte == 0:
+                self._fileobj.seek(self._start_byte)""", ['C14.b'])
+V('c01-twin-deferred-open-always-seeks', ['C01', 'C14'], 'utils.py', """            if self._start_byte != 0:
+                self._fileobj.seek(self._start_byte)""", """            self._fileobj.seek(self._start_byte)""", kind='twin', why='seeking to 0 on a fresh handle is a no-op')
+V('c01-twin-deferred-open-positive-test', ['C01', 'C14'], 'utils.py', """            if self._start_byte != 0:""", """            if self._start_byte > 0:""", kind='twin', why='start bytes are non-negative')
+
+# ---- D10 -------------------------------------------------------------------------
+V('c13-revert-D10', ['C13'], 'bandwidth.py', """        if time_at_consumption <= self._last_time:
+            # No time has passed since the last recorded consumption, so
+            # there is no finite rate to learn from this one. Recording the
+            # infinite rate would stick in the moving average forever and
+            # throttle every later request, no matter how small.
+            return
+        self._current_rate""", """        self._current_rate""", ['C13.i'])
+V('c13-twin-D10-guard-on-the-delta', ['C13'], 'bandwidth.py', """        if time_at_consumption <= self._last_time:
+            # No time has passed since the last recorded consumption, so
+            # there is no finite rate to learn from this one. Recording the
+            # infinite rate would stick in the moving average forever and
+            # throttle every later request, no matter how small.
+            return
+        self._current_rate""", """        elapsed = time_at_consumption - self._last_time
+        if not elapsed > 0:
+            return
+        self._current_rate""", kind='twin', why='the same guard written on the difference')
